@@ -123,6 +123,9 @@ Section Model.
   (* Kernel2D.convolved_array_from: scipy.signal.convolve2d(native, kernel, mode="same") then slim *)
   Definition convolved_array (m : mask) (native : list (list T)) (K : kernel) : list T :=
     map (conv_full (img_fun native) K) (unmasked m).
+  (* with the method's own odd-kernel check (kernel_2d.py: `if shape[0] % 2 == 0 or shape[1] % 2 == 0: raise`) *)
+  Definition convolved_array_checked (m : mask) (native : list (list T)) (K : kernel) : res (list T) :=
+    if (rows K mod 2 =? 0) || (cols K mod 2 =? 0) then Raise KernelException else Ok (convolved_array m native K).
 End Model.
 
 (* ---------------- correspondence cases (values are exact rationals) ---------------- *)
@@ -137,7 +140,7 @@ Inductive case :=
 | KConvolve (m : mask) (K : qm) (img bimg : qv) (out : qv)
 | KNoBlur (m : mask) (K : qm) (img : qv) (out : qv)
 | KMatrix (m : mask) (K : qm) (M : qm) (out : qm)
-| KWhole (m : mask) (native : qm) (K : qm) (out : qv).                (* Kernel2D.convolved_array(_with_mask)_from *)
+| KWhole (m : mask) (native : qm) (K : qm) (out : res qv).            (* Kernel2D.convolved_array(_with_mask)_from *)
 
 Definition with_conv {B} (m : mask) (K : qm) (d : B) (f : @convolver QOps -> B) : B :=
   match @convolver_init QOps m K with Ok c => f c | Raise _ => d end.
@@ -152,7 +155,7 @@ Definition agree (k : case) : bool :=
   | KConvolve m K img bimg out => with_conv m K false (fun c => qv_eqb (convolve c img bimg) out)
   | KNoBlur m K img out => with_conv m K false (fun c => qv_eqb (convolve_no_blurring c img) out)
   | KMatrix m K M out => with_conv m K false (fun c => qm_eqb (convolve_matrix c M) out)
-  | KWhole m native K out => qv_eqb (@convolved_array QOps m native K) out
+  | KWhole m native K out => res_eqb qv_eqb (@convolved_array_checked QOps m native K) out
   end.
 
 (* spec verdict on the implementation's output; uses conv_full / footprints only, never the frames *)
@@ -187,7 +190,11 @@ Definition spec_ok (k : case) : bool :=
                  (map (@conv_full QOps (@combined QOps m (spec_bmask m K) (@column QOps M j) []) K) (unmasked m)))
               (seq 0 (length (hd [] M)))
   | KWhole m native K out =>
-      negb (odd_kernel K) || qv_eqb out (map (@conv_full QOps (@img_fun QOps native) K) (unmasked m))
+      if negb (odd_kernel K) then res_eqb (fun _ _ => true) out (Raise KernelException)
+      else match out with
+           | Ok o => qv_eqb o (map (@conv_full QOps (@img_fun QOps native) K) (unmasked m))
+           | Raise _ => false
+           end
   end.
 
 Definition check (k : case) : nat := verdict (agree k) (spec_ok k).
